@@ -14,7 +14,9 @@ pub fn div(a: &ER, c: &ER) -> (r: Option<i32>)
         None => a.v() == r0(),
         Some(k) => a.v() != r0() && k >= 0 && dvd(rpow(c.v(), k as nat), a.v()) && !dvd(rpow(c.v(), (k + 1) as nat), a.v()),
     },
-//@body fn/div ring=1 machine=k
+//@body fn/div ring=1 machine=k loops=1
+//@+ loop 0 header
+//@| while (&a % c).is_zero()
 //@+ sig
 //@| fn div<R>(a: &R, c: &R) -> Option<i32> where R: EucRing, for<'x> &'x R: EucRingOps<R>
 //@+ pre-raw
